@@ -30,6 +30,7 @@ class Lag(threading.Thread):
 class Peer:
     def __init__(self, srv, nick, behaviour, ping, pong):
         self.nick = nick
+        self.idx = int("".join(ch for ch in nick[1:3] if ch.isdigit()) or 0)
         self.b = behaviour
         self.P, self.Q = ping, pong
         self.c = wire.Client(srv.port, name=nick, timeout=8.0)
@@ -140,9 +141,10 @@ class Peer:
         if now >= self.next_own_ping and self.b != "never":
             self.n += 1
             # "a PONG carrying the same token": ordinary and odd tokens (empty, leading colon, blanks, multi-byte)
-            odd = ["", ":", ":-) %d", "a:b%d", "two words %d", "é%d", "::%d", " lead%d", "#%d", "%d:"]
+            odd = ["", ":", ":-) %d", "a:b%d", "two words %d", "é%d", "::%d", " lead%d", "#%d", "%d:", "trail%d ",
+                   "tab%d\t", "two%d  ", " %d ", "  "]
             if self.n % 3 == 0:
-                t = odd[(self.n // 3) % len(odd)]
+                t = odd[(self.n // 3 + self.idx * 4) % len(odd)]  # every peer starts elsewhere in the list
                 tok = (t % self.n) if "%d" in t else t
                 if tok in self.own_tokens:
                     tok = "%s-%d" % (self.nick, self.n)
